@@ -122,7 +122,14 @@ func initKernel() {
 				duration = durationVal.AsInlineTimeSpan()
 			}
 
-			time.Sleep(duration.Native())
+			// sleeping gets interrupted when the execution of the thread is aborted
+			timer := time.NewTimer(duration.Native())
+			defer timer.Stop()
+			select {
+			case <-timer.C:
+			case <-vm.Aborter.Context().Done():
+				return value.Undefined, value.ExecutionAbortedError.ToValue()
+			}
 
 			return value.Nil, value.Undefined
 		},
